@@ -243,7 +243,6 @@ type addrT string
 func (a addrT) Network() string { return "mem" }
 func (a addrT) String() string  { return string(a) }
 
-
 func c01tls(c *ctx, s int) {
 	r := c.r
 	method := byte(r.intn(4))
@@ -489,7 +488,7 @@ func c01burst(c *ctx, k int) {
 	synctest.Run(func() {
 		var key [32]byte
 		copy(key[:], r.bytes(32))
-		rg := newPairRig(method, key, nconn, false, false, time.Hour)
+		rg := newSeshPair(method, key, nconn, false, false, time.Hour)
 		st, err := rg.S[0].sesh.OpenStream()
 		if err != nil {
 			return
